@@ -211,19 +211,33 @@ impl Processor {
         });
         */
 
+        // Set once the unit has been terminated: the gate then has nothing
+        // more to tell us (polling it again would return Terminated at once,
+        // over and over), we only wait for the session to wind down.
+        let mut terminating = false;
+
         // XXX is this all OK cancel-safety-wise?
         loop {
             tokio::select! {
                 fsm_res = session.tick() => {
                     match fsm_res {
-                        Ok(()) => { },
+                        Ok(()) => {
+                            // The FSM can drop its connection without
+                            // sending us a message (hold timer expired,
+                            // Command::Disconnect handled): the session is
+                            // over then, so leave the loop and clean up.
+                            if session.connected_addr().is_none() {
+                                debug!("session has no connection anymore, done");
+                                break;
+                            }
+                        },
                         Err(e) => {
                             error!("error from fsm: {e}");
                             break;
                         }
                     }
                 }
-                res = self.gate.process() => {
+                res = self.gate.process(), if !terminating => {
                     match res {
                         Err(Terminated) => {
                             debug!("Terminated: {:?}", session.negotiated());
@@ -234,7 +248,11 @@ impl Processor {
                                     DisconnectReason::Shutdown
                             )).await;
                             debug!("TODO send Payload::bgp_eof");
-                            //break;
+                            // No break: the session acts on the command in
+                            // a next tick (NOTIFICATION, connection closed),
+                            // after which the loop ends above or through a
+                            // ConnectionLost message.
+                            terminating = true;
                         }
                         Ok(status) => match status {
                             GateStatus::Reconfiguring {
